@@ -14,6 +14,7 @@ A spec (dict) describes ONE component by what its own `construct` declares:
                                         {'t':'kid', slot, spec}        slot = 'c0' or list element 'd0[1]'
   conns, consts                [[ref, ref]], [[ref, int]] in connect order
   uu, rdu, wru, mcs            explicit constraints on own blocks
+  rdux, wrux, mcx              like rdu / wru / mcs with the block given as a ref into a child: RD(s.c0.out0) < U( s.c1.get_update_block("b0") )
   uux                          [[ref, ref]] U(x) < U(y) between blocks of children: U( s.c0.get_update_block("b0") ) < ...
   (a 'structural' component has no update block of its own: children, connections, constants and uux only)
 ref = [[relhost...], name]: [[], 'w0'] = s.w0, [['c0'], 'out0'] = s.c0.out0.
@@ -162,6 +163,21 @@ class Gen:
         i, j = sorted(rng.sample(range(len(ks)), 2))
         c = [[[ks[i][0]], rng.choice(ks[i][1])], [[ks[j][0]], rng.choice(ks[j][1])]]
         if c not in s['uux']: s['uux'].append(c)
+    s['rdux'], s['wrux'], s['mcx'] = [], [], []
+    if structural and len(ks) >= 2:
+      kd = {it['slot']: it['spec'] for it in s['items'] if it['t'] == 'kid'}
+      for key in ('rdux', 'wrux'):
+        if rng.random() < 0.5:
+          i, j = sorted(rng.sample(range(len(ks)), 2))
+          fwd = rng.random() < 0.5          # RD/WR(earlier child's output) < U(later child's block), or U(earlier block) < RD/WR(later output)
+          var, blk = (ks[i][0], ks[j]) if fwd else (ks[j][0], ks[i])
+          s[key].append([[[var], f'out{rng.randrange(kd[var]["nout"])}'], fwd, [[blk[0]], rng.choice(blk[1])]])
+      mp = [slot for slot, _ in ks if kd[slot]['mport']]
+      if mp and rng.random() < 0.7:
+        m = rng.choice(mp)
+        o = rng.choice([x for x in ks if x[0] != m])
+        pair = [['m', [[m], 'ping']], ['u', [[o[0]], rng.choice(o[1])]]]
+        s['mcx'].append((pair if rng.random() < 0.5 else pair[::-1]) + [False])
     if s['rin']:
       bl = [it for it in s['items'] if it['t'] == 'blk' and it['writes']]
       ffs = [it for it in bl if it['kind'] == 'ff']
@@ -301,6 +317,11 @@ def class_source(spec, sfx, out):
     for r, lt, b in lst: cons.append(f'{tag}({pyref(r)}) {"<" if lt else ">"} U({b})')
   def mref(x): return f'U({x[1]})' if x[0] == 'u' else f'M({pyref(x[1])})'
   for x, y, eq in spec['mcs']: cons.append(f'{mref(x)} {"==" if eq else "<"} {mref(y)}')
+  # constraints of a (structural) component on signals / methods / blocks of its children
+  for tag in ('RD', 'WR'):
+    for r, lt, b in spec.get(tag.lower() + 'ux', []): cons.append(f'{tag}({pyref(r)}) {"<" if lt else ">"} U( {ublk(b)} )')
+  def mxref(x): return f'U( {ublk(x[1])} )' if x[0] == 'u' else f'M({pyref(x[1])})'
+  for x, y, eq in spec.get('mcx', []): cons.append(f'{mxref(x)} {"==" if eq else "<"} {mxref(y)}')
   if cons:
     L.append('    s.add_constraints(')
     L += [f'      {c},' for c in cons]
@@ -363,7 +384,10 @@ def hier(spec, pre=(), params=(), base=()):
     conns.append([[[slot], 'reset'], [[], 'reset']])
   if spec.get('caller'): conns.append([[[], 'cp'], [[spec['caller'][0]], 'ping']])
   uu = [[[[], a], [[], b]] for a, b in spec['uu']] + spec.get('uux', [])
-  comp = [bool(spec.get('ph')), sigs, mports, blks, uu, spec['rdu'], spec['wru'], spec['mcs'], conns,
+  own = lambda lst: [[r, lt, [[], b]] for r, lt, b in lst]
+  mown = lambda x: ['u', [[], x[1]]] if x[0] == 'u' else x
+  comp = [bool(spec.get('ph')), sigs, mports, blks, uu, own(spec['rdu']) + spec.get('rdux', []), own(spec['wru']) + spec.get('wrux', []),
+          [[mown(x), mown(y), eq] for x, y, eq in spec['mcs']] + spec.get('mcx', []), conns,
           [[a, str(v)] for a, v in spec['consts']] + ([[[[], 'kc'], str(eff_k(spec, tuple(base) + tuple(pre), params))]] if spec.get('kconst') else [])]
   out = [[list(pre), comp]]
   for slot, subspec in kids(spec): out += hier(subspec, pre + (slot,), params, base)
